@@ -6,7 +6,7 @@ package reg
 import (
 	"fmt"
 	"runtime"
-	"sync"
+	"sync/atomic"
 
 	"github.com/cinar/indicator/v2/helper"
 
@@ -264,20 +264,6 @@ func declared(a any, implied int) int {
 // exported fields while they still read them would be the caller's data race, not the library's.
 func warm(compute func([]C) []C, nin, n int) {
 	base := census.Baseline()
-	defer func() {
-		for spin := 0; spin < 1000000; spin++ {
-			v, _ := base.Verdict()
-			if v == census.None {
-				return
-			}
-			if v == census.Stuck {
-				if stuck, _ := base.StableStuck(); stuck {
-					return // leaked by the first computation: the caller's census reports it
-				}
-			}
-			runtime.Gosched()
-		}
-	}()
 	ins := make([]C, nin)
 	for i := range ins {
 		vals := make([]float64, n)
@@ -287,12 +273,25 @@ func warm(compute func([]C) []C, nin, n int) {
 		ins[i] = helper.SliceToChan(vals)
 	}
 	outs := compute(ins)
-	var wg sync.WaitGroup
+	var left int32 = int32(len(outs))
 	for _, o := range outs {
-		wg.Add(1)
-		go func(o C) { defer wg.Done(); helper.Drain(o) }(o)
+		go func(o C) { helper.Drain(o); atomic.AddInt32(&left, -1) }(o)
 	}
-	wg.Wait()
+	// wait with the census, never with a blocking call: a first computation that hangs (or leaves
+	// goroutines behind) is left as it is - the census of the case that follows reports it
+	for spin := 0; ; spin++ {
+		if atomic.LoadInt32(&left) == 0 {
+			if v, _ := base.Verdict(); v == census.None {
+				return
+			}
+		}
+		if spin > 2000 {
+			if stuck, _ := base.StableStuck(); stuck {
+				return
+			}
+		}
+		runtime.Gosched()
+	}
 }
 
 // All returns every registry entry.
